@@ -155,6 +155,9 @@ class gcvar(object):
         self.category = self._header['category'][0].strip()
         self.tracerid = self._header['tracerid'][0]
         self.base_units = self._header['base_units'][0]
+        if hasattr(self.category, 'decode'):
+            # the tables are read as text
+            self.category = self.category.decode()
         self.catoffset = [row['offset']
                           for row in self._parent._ddata
                           if row['category'] == self.category][0]
@@ -356,19 +359,20 @@ class bpch2(bpch_base):
         tpath = os.path.join(os.path.dirname(path), 'tracerinfo.dat')
         if not os.path.exists(tpath):
             tpath = 'tracerinfo.dat'
-        self._tdata = np.recfromtxt(tpath, dtype=None, comments='#', names=[
+        self._tdata = np.genfromtxt(tpath, dtype=None, comments='#', names=[
                                     'shortname', 'fullname', 'kgpermole',
                                     'carbon', 'tracerid', 'scale', 'units'],
                                     delimiter=[9, 30, 10, 3, 9, 10, 41],
-                                    autostrip=True)
+                                    autostrip=True, encoding=None, ndmin=1)
 
     def _getdiaginfo(self, path):
         dpath = os.path.join(os.path.dirname(path), 'diaginfo.dat')
         if not os.path.exists(dpath):
             dpath = 'diaginfo.dat'
-        self._ddata = np.recfromtxt(dpath, dtype=None, comments='#', names=[
+        self._ddata = np.genfromtxt(dpath, dtype=None, comments='#', names=[
                                     'offset', 'category', 'comment'],
-                                    delimiter=[9, 40, 100], autostrip=True)
+                                    delimiter=[9, 40, 100], autostrip=True,
+                                    encoding=None, ndmin=1)
 
 # OFFSET    (I8 )  Constant to add to tracer numbers in order to distinguish
 #                  for the given diagnostic category, as stored in file
